@@ -154,15 +154,41 @@ func replayMigrate(c *core.Ctx, lfsBin string, b *behaviour, idx int) (*core.Vio
 			if err := w.Relink(s.str("b"), s.str("p"), l); err != nil {
 				return nil, fmt.Errorf("step %d %v: %v", i, s, err)
 			}
+		case "setattr":
+			on, _ := s["on"].(bool)
+			if err := w.SetAttr(s.str("b"), s.str("which"), on); err != nil {
+				return nil, fmt.Errorf("step %d %v: %v", i, s, err)
+			}
 		case "tag":
 			r := w.Env.GitDate(w.Clone, w.Now-1800, "tag", "-a", "-m", "annotated tag v1", "v1", s.str("b"))
 			if !r.OK() {
 				return nil, fmt.Errorf("tag: %s", r.All())
 			}
-		case "import", "export":
+		case "import", "export", "fixup":
 			if before == nil {
 				if err := snapshot(); err != nil {
 					return nil, err
+				}
+				// the history the harness built has the representations the specification says it has
+				if r0, ok := s["repr0"].([]interface{}); ok {
+					for ci := range w.Commits {
+						want, _ := r0[ci].(map[string]interface{})
+						for subj, ci2 := range before {
+							if !strings.HasPrefix(subj, fmt.Sprintf("c%d ", ci+1)) {
+								continue
+							}
+							for _, p := range paths {
+								okb, _, by := blobAt(w, ci2.sha, PathFile(p))
+								got := "none"
+								if okb {
+									got, _, _ = resolve(w, by)
+								}
+								if wr, _ := want[p].(string); wr != got {
+									return nil, fmt.Errorf("world/spec mismatch: commit %q path %s is %s before the rewrite, spec says %s", subj, p, got, wr)
+								}
+							}
+						}
+					}
 				}
 				// the history the harness built has the modes the specification says it has
 				if ex, ok := s["exec"].([]interface{}); ok {
@@ -190,11 +216,15 @@ func replayMigrate(c *core.Ctx, lfsBin string, b *behaviour, idx int) (*core.Vio
 				}
 			}
 			sel := toStrings(s["sel"])
-			include := PathFile(sel[0])
-			if len(sel) > 1 {
-				include = "*.bin"
+			include := ""
+			args := []string{"lfs", "migrate", "import", "--fixup", "--everything", "--yes"}
+			if a != "fixup" {
+				include = PathFile(sel[0])
+				if len(sel) > 1 {
+					include = "*.bin"
+				}
+				args = []string{"lfs", "migrate", a, "--everything", "--include=" + include, "--yes"}
 			}
-			args := []string{"lfs", "migrate", a, "--everything", "--include=" + include, "--yes"}
 			w.logf("git %s", strings.Join(args, " "))
 			r := w.Env.RunIn(w.Clone, nil, nil, 180*time.Second, "git", args...)
 			mk := func(assertion, why string) *core.Violation {
@@ -269,7 +299,21 @@ func replayMigrate(c *core.Ctx, lfsBin string, b *behaviour, idx int) (*core.Vio
 						return mk("same-mode-per-path", fmt.Sprintf("commit %q path %s mode %s became %s", subj, p, modes[subj][p], mode)), nil
 					}
 					if repr != wr {
-						return mk("exactly-selected-paths-change-representation", fmt.Sprintf("commit %q path %s is %s, the specification says %s", subj, p, repr, wr)), nil
+						v := mk("exactly-selected-paths-change-representation", fmt.Sprintf("commit %q path %s is %s, the specification says %s", subj, p, repr, wr))
+						if a == "fixup" {
+							// was the very same entry (path, ordinary blob) decided in an earlier commit under other attributes?
+							v.Fields["cause"] = "unclassified"
+							r0, _ := s["repr0"].([]interface{})
+							tr, _ := s["tracked"].([]interface{})
+							marked := func(k int) bool { return k < len(tr) && toSet(toStrings(tr[k]))[p] }
+							for k := 0; k < ci && k < len(r0); k++ {
+								m, _ := r0[k].(map[string]interface{})
+								if m[p] == "raw" && marked(k) != marked(ci) {
+									v.Fields["cause"] = "entry-decided-under-an-earlier-commits-attributes"
+								}
+							}
+						}
+						return v, nil
 					}
 				}
 			}
@@ -305,12 +349,13 @@ func replayMigrate(c *core.Ctx, lfsBin string, b *behaviour, idx int) (*core.Vio
 
 func init() {
 	registry["C12"] = func(c *core.Ctx, replay string) {
+		pathDir["p2"] = "sub/" // p2 lives in a directory of its own (nested .gitattributes)
 		if replayBehaviourOnly(c, replay, replayMigrate, "model_checking") {
 			return
 		}
 		c.Level = "model_checking"
 		lfs := c.BuildLFS()
-		cfg, budget := "Migrate_q.cfg", 260
+		cfg, budget := "Migrate_q.cfg", 400
 		if !c.Quick() {
 			cfg, budget = "Migrate_t.cfg", 2500
 		}
@@ -333,6 +378,12 @@ func init() {
 			for _, s := range st {
 				actionsSeen[s.str("a")]++
 				switch s.str("a") {
+				case "setattr":
+					feat["attr:"+s.str("which")] = true
+					if on, _ := s["on"].(bool); !on {
+						feat["attr-removed"] = true
+					}
+					lastAge[s.str("b")] = 0
 				case "merge", "tag", "chmod", "relink":
 					feat[s.str("a")] = true
 					if s.str("a") != "tag" {
@@ -375,7 +426,7 @@ func init() {
 		}); err != nil {
 			c.Infra("read behaviours: %v", err)
 		}
-		requireActions(c, "commit", "merge", "tag", "chmod", "relink", "import", "export")
+		requireActions(c, "commit", "merge", "tag", "chmod", "relink", "setattr", "import", "export", "fixup")
 		keys := []string{}
 		for k := range byClass {
 			keys = append(keys, k)
@@ -398,11 +449,11 @@ func init() {
 		c.Set("traces_validated_against_impl", len(bs))
 		c.Set("evaluations", len(bs))
 		c.Set("distinct_nontrivial", len(bs))
-		c.Set("rule", "behaviours = per-edge output of spec/Migrate.tla for every edge ending in an import or an export (after an import); sampled round-robin over classes (command x selection size x features merge / tag / chmod / relink / blob kinds / branch / a commit dated before its parent)")
+		c.Set("rule", "behaviours = per-edge output of spec/Migrate.tla for every edge ending in an import, an export (after an import) or a --fixup; sampled round-robin over classes (command x selection size x features merge / tag / chmod / relink / blob kinds / branch / a commit dated before its parent)")
 		for i := 0; i < len(bs); i += len(bs)/4 + 1 {
 			c.Sample(json.RawMessage(bs[i].raw))
 		}
-		c.Assume("commit dates need not follow ancestry (Skew); --everything with --include of one path or *.bin; executable bit only through mode-only commits; symbolic links only as type changes of ordinary files (same blob); nested .gitattributes, --above, --fixup, --no-rewrite, --include-ref/--exclude-ref are not yet modelled; .gitattributes written by migrate is treated as managed metadata and not compared")
+		c.Assume("commit dates need not follow ancestry (Skew); --everything with --include of one path or *.bin; executable bit only through mode-only commits; symbolic links only as type changes of ordinary files (same blob); --fixup over histories with a top-level and a nested .gitattributes line; --above, --no-rewrite, --include-ref/--exclude-ref are not yet modelled; .gitattributes written by migrate is treated as managed metadata and not compared")
 	}
 }
 
